@@ -18,7 +18,7 @@ from harness.props.c08 import dump_to_schema
 
 ID = "C17"
 TIE_MODULES = ["StathamModel.Tie"]
-PROOF_MODULES = ["StathamModel.Lemmas.AccNames"]
+PROOF_MODULES = ["StathamModel.Lemmas.AccNames", "StathamModel.Lemmas.SerNames"]
 from harness.props.c18 import unique_class_names  # noqa: E402
 
 ASSUMPTIONS = ["model classes have unique names within one tree (the serializers' documented assumption)", "class names are not part of equality (documented); serializations are compared with titles and $ref targets of equal classes identified"]
